@@ -328,7 +328,7 @@ def run(prop, tier):
     full = [h for h in hists if h["hist"]]
     nmax = 160 if thorough else 48
     if len(full) > nmax:
-        withlist = [h for h in full if any(f == "list" for _, _, f in h["hist"]) and h["hist"][-1][0] != "change_tvec"]
+        withlist = [h for h in full if (any(f == "list" for _, _, f in h["hist"]) and h["hist"][-1][0] != "change_tvec") or any(op == "set_sigma" for op, _, _ in h["hist"])]
         rest = [h for h in full if h not in withlist]
         withlist = [withlist[i] for i in rng.permutation(len(withlist))[: nmax // 2]]
         full = withlist + [rest[i] for i in rng.permutation(len(rest))[: nmax - len(withlist)]]
@@ -346,6 +346,8 @@ def run(prop, tier):
                     ts_.insert(float(list(arg)[0]), val_at(float(list(arg)[0])))
                 elif op == "remove_value":
                     ts_.remove(float(list(arg)[0]))
+                elif op == "set_sigma":
+                    ts_.sigma = dict(none=None, zero=0.0, pos=0.25)[list(arg)[0]]
                 elif op == "add_pop":
                     D.add_pop(list(arg)[0], "Pop " + list(arg)[0])
                 elif op == "remove_pop":
@@ -353,6 +355,9 @@ def run(prop, tier):
                 elif op == "roundtrip":
                     D = at.ProjectData.from_spreadsheet(D.to_spreadsheet(), P.framework)
             ts_ = D.tdve[tkey].ts[0]
+            records.append(dict(id=rid, kind="same", a=dg(dict(none=None, zero=0.0, pos=0.25)[h["content"]["sigma"]]), b=dg(num(ts_.sigma))))
+            index[rid] = dict(label=lab_, what="uncertainty of the tracked series after the history", before=h["content"]["sigma"], after=str(ts_.sigma))
+            rid += 1
             want_pops = base_pops + sorted(h["content"]["pops"])
             records.append(dict(id=rid, kind="same", a=dg(dict(pops=want_pops, ends=[[want_pops, want_pops] for _ in D.transfers])), b=dg(dict(pops=list(D.pops.keys()), ends=[[list(t_.from_pops), list(t_.to_pops)] for t_ in D.transfers]))))
             index[rid] = dict(label=lab_, what="populations of the databook and at either end of its transfers (as lists) after the history", before=str(want_pops), after=str([[list(t_.from_pops), list(t_.to_pops)] for t_ in D.transfers])[:200])
